@@ -3,3 +3,5 @@ import Cobweb.State
 import Cobweb.Machine
 import Cobweb.Exec
 import Cobweb.Scenario
+import Cobweb.Syscall
+import Cobweb.SyscallScenario
